@@ -41,8 +41,8 @@ def run(ctx, rep):
     l = run_rule(ctx, rep, "LOOPGROW", S.loopgrow_sinks, allow)
     check_controls(rep, "ALLOCGUARD", a,
                    ["alloc_bad", "alloc_bigconst_bad", "alloc_lower_bad",
-                    "alloc_summary_bad", "alloc_new_bad"],
-                   ["alloc_ok", "alloc_helper_ok"])
+                    "alloc_summary_bad", "alloc_new_bad", "alloc_wrap_bad"],
+                   ["alloc_ok", "alloc_helper_ok", "alloc_wide_ok"])
     check_controls(rep, "LOOPGROW", l, ["loop_bad"], ["loop_ok"])
     real_a = [o for o in a if not o.control]
     real_l = [o for o in l if not o.control]
